@@ -378,7 +378,8 @@ def ck_e3(ctx, scenarios, max_nb_log=4):
     scf = os.path.join(w, "scenarios.ndjson")
     vlib.vh(["drive", "ck", "--out", scf, "--seed", str(ctx.seed), "--scenarios", str(scenarios), "--max-nb-log", str(max_nb_log)], w)
     p = os.path.join(w, "p.ndjson")
-    stats = vlib.vh(["scenario", "ck", "--in", scf, "--out", p], w)
+    m = os.path.join(w, "m.ndjson")
+    stats = vlib.vh(["scenario", "ck", "--in", scf, "--out", p, "--mout", m], w)
     ctx.e3_calls += stats["calls"]
     ctx.executed += stats["calls"]
     handle_hang(ctx, stats, p, "ck", "P_Cuckoo")
@@ -386,6 +387,24 @@ def ck_e3(ctx, scenarios, max_nb_log=4):
     ctx.judged += n
     add_rejects(ctx, rej, p, "ck", "P_Cuckoo", scenarios=scf)
     sample_records(ctx, p, 1, '"union"')
+    # M-level trace validation of the scenarios (code -> spec, MaxKicks = 500, scripted victims) for tables of <= 64 slots
+    # whose fingerprints fit TLC's integers
+    asb = ck_consts()
+
+    def key(c):
+        return (c["b"], c["nb"]) if c.get("l", 99) <= 30 and c.get("b", 99) * c.get("nb", 99) <= 64 else None
+
+    def consts(k):
+        d = {"B": k[0], "NB": k[1], "FPMax": 1, "MaxKicks": 500}
+        d.update(asb)
+        return d
+
+    nm, drift, ng = vlib.mvalidate_grouped("Trace_Cuckoo", m, w, key, consts)
+    ctx.mvalidated += nm
+    ctx.drift += len(drift)
+    if drift:
+        ctx.drift_notes.append({"cuckoo_scenario_calls_not_reproduced_by_spec": drift[:5]})
+    ctx.extra.setdefault("m_level_trace_validation", []).append({"structure": "CuckooFilter", "configurations": ng, "calls": nm, "not_reproduced": len(drift)})
 
 
 def run_ck(ctx):
